@@ -189,6 +189,9 @@ def direct_ops():
         ('decrease resources by nothing', lambda st: st['res'].decrease(a=0, b=0)),
         ('borrow nothing and give it back', borrow_nothing),
         ('claim nothing and give it back', claim_nothing),
+        ('set no level at all', lambda st: st['res'].set(**{})),
+        ('increase no level at all', lambda st: st['res'].increase(**{})),
+        ('decrease no level at all', lambda st: st['res'].decrease(**{})),
         ('increase resources', lambda st: st['res'].increase(a=1)),
         ('decrease resources', lambda st: st['res'].decrease(a=1)),
         ('set resources', lambda st: st['res'].set(a=3)),
